@@ -301,7 +301,7 @@ func runC33(env *sim.Env, p *sim.Plan) *sim.Result {
 			if vs := c.mr.VrfShare(); vs != nil {
 				c.delivered[w.Self.ID()+"/"+vs.Share] = "own"
 			}
-			tr.Event("myshare redo=%v out=%v", ok, w.TakeOut())
+			tr.Event("myshare redo=%v out=%v", ok, w.OutKinds())
 			tr.Outcome("myshare")
 		case "restart":
 			if c.mr.GetPhase() >= round.Share {
@@ -324,7 +324,7 @@ func runC33(env *sim.Env, p *sim.Plan) *sim.Result {
 			if hadSeed {
 				tr.Probe("restart_after_completion")
 			}
-			tr.Event("restart err=%v redo=%v out=%v", err, redo, w.TakeOut())
+			tr.Event("restart err=%v redo=%v out=%v", err, redo, w.OutKinds())
 			tr.Outcome("restart")
 		case "share":
 			kind := c33Kinds[int(st.Int(0, 0))%len(c33Kinds)]
@@ -422,7 +422,7 @@ func runC33(env *sim.Env, p *sim.Plan) *sim.Result {
 		}
 		check()
 	}
-	tr.Event("out %v", w.TakeOut())
+	tr.Event("out %v", w.OutKinds())
 	return tr.Result(p.Seed)
 }
 
